@@ -22,6 +22,7 @@ META = {
     "required_counters": ["runs_judged", "sweep_runs", "second_runs_judged", "on_close_checked"],
     "assumptions": [],
 }
+META["claim"] += " " + "Also: servers that never answer the client's close frame (silent or streaming for ever); a second run with keepalive against a silent peer; undecodable close reasons with validation off; re-running the application from inside on_close; two/three forced preemptions at random lines; a cross-check of the simulator against real loopback TCP on 30 timing-free scenarios."
 
 HORIZON = 400.0
 
